@@ -168,6 +168,18 @@ def check_state(job):
         out.append((["C08"], "data_adjoint", "convolve_data_adjoint is not the adjoint w.r.t. the data (shape %s)" % (ad.shape,)))
     if tuple(af.shape) != fshape or not np.array_equal(af, expf.reshape(fshape)):
         out.append((["C08"], "filter_adjoint", "convolve_filter_adjoint is not the adjoint w.r.t. the filter (shape %s)" % (af.shape,)))
+    # an `output` argument that does not have the shape convolve produces (a spatial axis collapsed to length 1, which NumPy
+    # broadcasting would silently replicate) must be rejected by both adjoints
+    if any(v > 1 for v in p):
+        d_ = max(range(len(p)), key=lambda t: p[t])
+        pc = tuple(1 if t == d_ else v for t, v in enumerate(p))
+        oc = gint(rs, b + ((co,) if mc else ()) + pc)
+        for what, call in (("convolve_data_adjoint", lambda: sp.convolve_data_adjoint(oc, filt, dshape, **kw)), ("convolve_filter_adjoint", lambda: sp.convolve_filter_adjoint(oc, data, fshape, **kw))):
+            try:
+                got = call()
+            except Exception:
+                continue
+            out.append((["C08"], "inconsistent_output_accepted", "%s accepted an output of spatial shape %s although convolve produces %s (returned shape %s)" % (what, pc, p, np.shape(got))))
     # operators (C01): dense adjoint of ConvolveData / ConvolveFilter
     if int(np.prod(dshape)) <= 24 and int(np.prod(oshape)) <= 36:
         for name, A in (("ConvolveData", sp.linop.ConvolveData(list(dshape), filt, **kw)), ("ConvolveFilter", sp.linop.ConvolveFilter(list(fshape), data, **kw))):
